@@ -10,6 +10,7 @@ import ast
 import sys
 from dataclasses import dataclass
 from dataclasses import fields as getfields
+from enum import IntEnum, auto
 from functools import partial
 from itertools import zip_longest
 from typing import TYPE_CHECKING, Any, Callable
@@ -26,12 +27,80 @@ if TYPE_CHECKING:
     from _griffe.models import Class, Module
 
 
-def _yield(element: str | Expr | tuple[str | Expr, ...], *, flat: bool = True) -> Iterator[str | Expr]:
+class _Precedence(IntEnum):
+    # Binding strength of expressions, weakest first (same table as the standard library's unparser).
+    # An operand is parenthesized when it binds less tightly than the place it is rendered in requires.
+    NONE = auto()
+    YIELD = auto()  # `yield`, `yield from`
+    TEST = auto()  # `if`-`else`, `lambda`
+    OR = auto()
+    AND = auto()
+    NOT = auto()
+    CMP = auto()  # `<`, `>`, `==`, `>=`, `<=`, `!=`, `in`, `not in`, `is`, `is not`
+    BOR = auto()
+    BXOR = auto()
+    BAND = auto()
+    SHIFT = auto()
+    ARITH = auto()  # `+`, `-`
+    TERM = auto()  # `*`, `@`, `/`, `%`, `//`
+    FACTOR = auto()  # unary `+`, `-`, `~`
+    POWER = auto()
+    ATOM = auto()
+
+    def next(self) -> _Precedence:
+        return _Precedence(min(self + 1, _Precedence.ATOM))
+
+
+_binary_op_precedence = {
+    "|": _Precedence.BOR,
+    "^": _Precedence.BXOR,
+    "&": _Precedence.BAND,
+    "<<": _Precedence.SHIFT,
+    ">>": _Precedence.SHIFT,
+    "+": _Precedence.ARITH,
+    "-": _Precedence.ARITH,
+    "*": _Precedence.TERM,
+    "@": _Precedence.TERM,
+    "/": _Precedence.TERM,
+    "%": _Precedence.TERM,
+    "//": _Precedence.TERM,
+    "**": _Precedence.POWER,
+}
+
+
+def _precedence(element: str | Expr) -> _Precedence:  # noqa: PLR0911
+    if isinstance(element, ExprBinOp):
+        return _binary_op_precedence.get(element.operator, _Precedence.BOR)
+    if isinstance(element, ExprBoolOp):
+        return _Precedence.OR if element.operator == "or" else _Precedence.AND
+    if isinstance(element, ExprUnaryOp):
+        return _Precedence.NOT if element.operator.strip() == "not" else _Precedence.FACTOR
+    if isinstance(element, ExprCompare):
+        return _Precedence.CMP
+    if isinstance(element, (ExprIfExp, ExprLambda)):
+        return _Precedence.TEST
+    if isinstance(element, (ExprYield, ExprYieldFrom)):
+        return _Precedence.YIELD
+    if isinstance(element, ExprTuple) and element.implicit and element.elements:
+        return _Precedence.NONE
+    return _Precedence.ATOM
+
+
+def _yield(
+    element: str | Expr | tuple[str | Expr, ...],
+    *,
+    flat: bool = True,
+    outer: _Precedence = _Precedence.NONE,
+) -> Iterator[str | Expr]:
     if isinstance(element, str):
         yield element
     elif isinstance(element, tuple):
         for elem in element:
-            yield from _yield(elem, flat=flat)
+            yield from _yield(elem, flat=flat, outer=outer)
+    elif _precedence(element) < outer:
+        yield "("
+        yield from _yield(element, flat=flat)
+        yield ")"
     elif flat:
         yield from element.iterate(flat=True)
     else:
@@ -43,15 +112,16 @@ def _join(
     joint: str | Expr,
     *,
     flat: bool = True,
+    outer: _Precedence = _Precedence.NONE,
 ) -> Iterator[str | Expr]:
     it = iter(elements)
     try:
-        yield from _yield(next(it), flat=flat)
+        yield from _yield(next(it), flat=flat, outer=outer)
     except StopIteration:
         return
     for element in it:
         yield from _yield(joint, flat=flat)
-        yield from _yield(element, flat=flat)
+        yield from _yield(element, flat=flat, outer=outer)
 
 
 def _field_as_dict(
@@ -184,7 +254,11 @@ class ExprAttribute(Expr):
     """The different parts of the dotted chain."""
 
     def iterate(self, *, flat: bool = True) -> Iterator[str | Expr]:
-        yield from _join(self.values, ".", flat=flat)
+        first = self.values[0]
+        if isinstance(first, str) and first.isdecimal():
+            # `1.real` is a syntax error.
+            first = f"({first})"
+        yield from _join([first, *self.values[1:]], ".", flat=flat, outer=_Precedence.ATOM)
 
     def append(self, value: ExprName) -> None:
         """Append a name to this attribute.
@@ -232,9 +306,12 @@ class ExprBinOp(Expr):
     """Right part."""
 
     def iterate(self, *, flat: bool = True) -> Iterator[str | Expr]:
-        yield from _yield(self.left, flat=flat)
+        precedence = _precedence(self)
+        # `**` binds to the right, the other operators to the left.
+        right_assoc = self.operator == "**"
+        yield from _yield(self.left, flat=flat, outer=precedence.next() if right_assoc else precedence)
         yield f" {self.operator} "
-        yield from _yield(self.right, flat=flat)
+        yield from _yield(self.right, flat=flat, outer=precedence if right_assoc else precedence.next())
 
 
 # YORE: EOL 3.9: Replace `**_dataclass_opts` with `slots=True` within line.
@@ -248,7 +325,7 @@ class ExprBoolOp(Expr):
     """Operands."""
 
     def iterate(self, *, flat: bool = True) -> Iterator[str | Expr]:
-        yield from _join(self.values, f" {self.operator} ", flat=flat)
+        yield from _join(self.values, f" {self.operator} ", flat=flat, outer=_precedence(self).next())
 
 
 # YORE: EOL 3.9: Replace `**_dataclass_opts` with `slots=True` within line.
@@ -267,9 +344,9 @@ class ExprCall(Expr):
         return self.function.canonical_path
 
     def iterate(self, *, flat: bool = True) -> Iterator[str | Expr]:
-        yield from _yield(self.function, flat=flat)
+        yield from _yield(self.function, flat=flat, outer=_Precedence.ATOM)
         yield "("
-        yield from _join(self.arguments, ", ", flat=flat)
+        yield from _join(self.arguments, ", ", flat=flat, outer=_Precedence.TEST)
         yield ")"
 
 
@@ -286,9 +363,14 @@ class ExprCompare(Expr):
     """Things compared."""
 
     def iterate(self, *, flat: bool = True) -> Iterator[str | Expr]:
-        yield from _yield(self.left, flat=flat)
+        yield from _yield(self.left, flat=flat, outer=_Precedence.BOR)
         yield " "
-        yield from _join(zip_longest(self.operators, [], self.comparators, fillvalue=" "), " ", flat=flat)
+        yield from _join(
+            zip_longest(self.operators, [], self.comparators, fillvalue=" "),
+            " ",
+            flat=flat,
+            outer=_Precedence.BOR,
+        )
 
 
 # YORE: EOL 3.9: Replace `**_dataclass_opts` with `slots=True` within line.
@@ -311,10 +393,10 @@ class ExprComprehension(Expr):
         yield "for "
         yield from _yield(self.target, flat=flat)
         yield " in "
-        yield from _yield(self.iterable, flat=flat)
+        yield from _yield(self.iterable, flat=flat, outer=_Precedence.OR)
         if self.conditions:
             yield " if "
-            yield from _join(self.conditions, " if ", flat=flat)
+            yield from _join(self.conditions, " if ", flat=flat, outer=_Precedence.OR)
 
 
 # TODO: `ExprConstant` is never instantiated,
@@ -345,11 +427,16 @@ class ExprDict(Expr):
 
     def iterate(self, *, flat: bool = True) -> Iterator[str | Expr]:
         yield "{"
-        yield from _join(
-            (("**", value) if key is None else (key, ": ", value) for key, value in zip(self.keys, self.values)),
-            ", ",
-            flat=flat,
-        )
+        for index, (key, value) in enumerate(zip(self.keys, self.values)):
+            if index:
+                yield ", "
+            if key is None:
+                yield "**"
+                yield from _yield(value, flat=flat, outer=_Precedence.BOR)
+            else:
+                yield from _yield(key, flat=flat, outer=_Precedence.TEST)
+                yield ": "
+                yield from _yield(value, flat=flat, outer=_Precedence.TEST)
         yield "}"
 
 
@@ -367,9 +454,9 @@ class ExprDictComp(Expr):
 
     def iterate(self, *, flat: bool = True) -> Iterator[str | Expr]:
         yield "{"
-        yield from _yield(self.key, flat=flat)
+        yield from _yield(self.key, flat=flat, outer=_Precedence.TEST)
         yield ": "
-        yield from _yield(self.value, flat=flat)
+        yield from _yield(self.value, flat=flat, outer=_Precedence.TEST)
         yield " "
         yield from _join(self.generators, " ", flat=flat)
         yield "}"
@@ -384,7 +471,7 @@ class ExprExtSlice(Expr):
     """Dims."""
 
     def iterate(self, *, flat: bool = True) -> Iterator[str | Expr]:
-        yield from _join(self.dims, ", ", flat=flat)
+        yield from _join(self.dims, ", ", flat=flat, outer=_Precedence.TEST)
 
 
 # YORE: EOL 3.9: Replace `**_dataclass_opts` with `slots=True` within line.
@@ -397,7 +484,10 @@ class ExprFormatted(Expr):
 
     def iterate(self, *, flat: bool = True) -> Iterator[str | Expr]:
         yield "{"
-        yield from _yield(self.value, flat=flat)
+        if isinstance(self.value, (ExprDict, ExprDictComp, ExprSet, ExprSetComp)):
+            # `{{` would be an escaped brace.
+            yield " "
+        yield from _yield(self.value, flat=flat, outer=_Precedence.OR)
         yield "}"
 
 
@@ -412,9 +502,11 @@ class ExprGeneratorExp(Expr):
     """Generators iterated on."""
 
     def iterate(self, *, flat: bool = True) -> Iterator[str | Expr]:
-        yield from _yield(self.element, flat=flat)
+        yield "("
+        yield from _yield(self.element, flat=flat, outer=_Precedence.TEST)
         yield " "
         yield from _join(self.generators, " ", flat=flat)
+        yield ")"
 
 
 # YORE: EOL 3.9: Replace `**_dataclass_opts` with `slots=True` within line.
@@ -430,11 +522,11 @@ class ExprIfExp(Expr):
     """Other expression."""
 
     def iterate(self, *, flat: bool = True) -> Iterator[str | Expr]:
-        yield from _yield(self.body, flat=flat)
+        yield from _yield(self.body, flat=flat, outer=_Precedence.OR)
         yield " if "
-        yield from _yield(self.test, flat=flat)
+        yield from _yield(self.test, flat=flat, outer=_Precedence.OR)
         yield " else "
-        yield from _yield(self.orelse, flat=flat)
+        yield from _yield(self.orelse, flat=flat, outer=_Precedence.TEST)
 
 
 # YORE: EOL 3.9: Replace `**_dataclass_opts` with `slots=True` within line.
@@ -489,7 +581,7 @@ class ExprKeyword(Expr):
     def iterate(self, *, flat: bool = True) -> Iterator[str | Expr]:
         yield self.name
         yield "="
-        yield from _yield(self.value, flat=flat)
+        yield from _yield(self.value, flat=flat, outer=_Precedence.TEST)
 
 
 # YORE: EOL 3.9: Replace `**_dataclass_opts` with `slots=True` within line.
@@ -502,7 +594,7 @@ class ExprVarPositional(Expr):
 
     def iterate(self, *, flat: bool = True) -> Iterator[str | Expr]:
         yield "*"
-        yield from _yield(self.value, flat=flat)
+        yield from _yield(self.value, flat=flat, outer=_Precedence.BOR)
 
 
 # YORE: EOL 3.9: Replace `**_dataclass_opts` with `slots=True` within line.
@@ -515,7 +607,7 @@ class ExprVarKeyword(Expr):
 
     def iterate(self, *, flat: bool = True) -> Iterator[str | Expr]:
         yield "**"
-        yield from _yield(self.value, flat=flat)
+        yield from _yield(self.value, flat=flat, outer=_Precedence.BOR)
 
 
 # YORE: EOL 3.9: Replace `**_dataclass_opts` with `slots=True` within line.
@@ -557,14 +649,14 @@ class ExprLambda(Expr):
             yield parameter.name
             if parameter.default and parameter.kind not in (ParameterKind.var_positional, ParameterKind.var_keyword):
                 yield "="
-                yield from _yield(parameter.default, flat=flat)
+                yield from _yield(parameter.default, flat=flat, outer=_Precedence.TEST)
             if index < length:
                 yield ", "
         if pos_only:
             # All parameters are positional-only.
             yield ", /"
         yield ": "
-        yield from _yield(self.body, flat=flat)
+        yield from _yield(self.body, flat=flat, outer=_Precedence.TEST)
 
 
 # YORE: EOL 3.9: Replace `**_dataclass_opts` with `slots=True` within line.
@@ -577,7 +669,7 @@ class ExprList(Expr):
 
     def iterate(self, *, flat: bool = True) -> Iterator[str | Expr]:
         yield "["
-        yield from _join(self.elements, ", ", flat=flat)
+        yield from _join(self.elements, ", ", flat=flat, outer=_Precedence.TEST)
         yield "]"
 
 
@@ -593,7 +685,7 @@ class ExprListComp(Expr):
 
     def iterate(self, *, flat: bool = True) -> Iterator[str | Expr]:
         yield "["
-        yield from _yield(self.element, flat=flat)
+        yield from _yield(self.element, flat=flat, outer=_Precedence.TEST)
         yield " "
         yield from _join(self.generators, " ", flat=flat)
         yield "]"
@@ -695,7 +787,7 @@ class ExprNamedExpr(Expr):
         yield "("
         yield from _yield(self.target, flat=flat)
         yield " := "
-        yield from _yield(self.value, flat=flat)
+        yield from _yield(self.value, flat=flat, outer=_Precedence.TEST)
         yield ")"
 
 
@@ -724,7 +816,7 @@ class ExprSet(Expr):
 
     def iterate(self, *, flat: bool = True) -> Iterator[str | Expr]:
         yield "{"
-        yield from _join(self.elements, ", ", flat=flat)
+        yield from _join(self.elements, ", ", flat=flat, outer=_Precedence.TEST)
         yield "}"
 
 
@@ -740,7 +832,7 @@ class ExprSetComp(Expr):
 
     def iterate(self, *, flat: bool = True) -> Iterator[str | Expr]:
         yield "{"
-        yield from _yield(self.element, flat=flat)
+        yield from _yield(self.element, flat=flat, outer=_Precedence.TEST)
         yield " "
         yield from _join(self.generators, " ", flat=flat)
         yield "}"
@@ -760,13 +852,13 @@ class ExprSlice(Expr):
 
     def iterate(self, *, flat: bool = True) -> Iterator[str | Expr]:
         if self.lower is not None:
-            yield from _yield(self.lower, flat=flat)
+            yield from _yield(self.lower, flat=flat, outer=_Precedence.TEST)
         yield ":"
         if self.upper is not None:
-            yield from _yield(self.upper, flat=flat)
+            yield from _yield(self.upper, flat=flat, outer=_Precedence.TEST)
         if self.step is not None:
             yield ":"
-            yield from _yield(self.step, flat=flat)
+            yield from _yield(self.step, flat=flat, outer=_Precedence.TEST)
 
 
 # YORE: EOL 3.9: Replace `**_dataclass_opts` with `slots=True` within line.
@@ -780,9 +872,14 @@ class ExprSubscript(Expr):
     """Slice part."""
 
     def iterate(self, *, flat: bool = True) -> Iterator[str | Expr]:
-        yield from _yield(self.left, flat=flat)
+        yield from _yield(self.left, flat=flat, outer=_Precedence.ATOM)
         yield "["
-        yield from _yield(self.slice, flat=flat)
+        # A tuple directly in a subscript needs no parentheses.
+        yield from _yield(
+            self.slice,
+            flat=flat,
+            outer=_Precedence.NONE if isinstance(self.slice, ExprTuple) else _Precedence.TEST,
+        )
         yield "]"
 
     @property
@@ -811,12 +908,14 @@ class ExprTuple(Expr):
     """Whether the tuple is implicit (e.g. without parentheses in a subscript's slice)."""
 
     def iterate(self, *, flat: bool = True) -> Iterator[str | Expr]:
-        if not self.implicit:
+        # The empty tuple is always written `()`.
+        implicit = self.implicit and bool(self.elements)
+        if not implicit:
             yield "("
-        yield from _join(self.elements, ", ", flat=flat)
+        yield from _join(self.elements, ", ", flat=flat, outer=_Precedence.TEST)
         if len(self.elements) == 1:
             yield ","
-        if not self.implicit:
+        if not implicit:
             yield ")"
 
 
@@ -832,7 +931,7 @@ class ExprUnaryOp(Expr):
 
     def iterate(self, *, flat: bool = True) -> Iterator[str | Expr]:
         yield self.operator
-        yield from _yield(self.value, flat=flat)
+        yield from _yield(self.value, flat=flat, outer=_precedence(self))
 
 
 # YORE: EOL 3.9: Replace `**_dataclass_opts` with `slots=True` within line.
@@ -847,7 +946,7 @@ class ExprYield(Expr):
         yield "yield"
         if self.value is not None:
             yield " "
-            yield from _yield(self.value, flat=flat)
+            yield from _yield(self.value, flat=flat, outer=_Precedence.TEST)
 
 
 # YORE: EOL 3.9: Replace `**_dataclass_opts` with `slots=True` within line.
@@ -860,7 +959,7 @@ class ExprYieldFrom(Expr):
 
     def iterate(self, *, flat: bool = True) -> Iterator[str | Expr]:
         yield "yield from "
-        yield from _yield(self.value, flat=flat)
+        yield from _yield(self.value, flat=flat, outer=_Precedence.TEST)
 
 
 _unary_op_map = {
